@@ -947,11 +947,58 @@ def gen_sizes():
         if len(dflt) != 1 or len(dflt[0].body) != 1:
             raise TranslateError('%s: default of the row filters' % nm)
         strs(nm + '_row_default', [ast.unparse(dflt[0].body[0])])
+    # --- module glue of the DTCWT classes: the Functions called per level with their arguments in order, the two loop headers, where the
+    # level results are stored, what the forward returns
+    dt2d = os.path.join(rt.REPO, 'pytorch_wavelets', 'dtcwt', 'transform2d.py')
+
+    def the_loop_with(fn, callee):
+        loops = [n for n in ast.walk(fn) if isinstance(n, ast.For) and any(isinstance(c, ast.Call) and ast.unparse(c.func) == callee for c in ast.walk(n))]
+        if len(loops) != 1:
+            raise TranslateError('%s: expected exactly one loop around %s, found %d' % (fn.name, callee, len(loops)))
+        return loops[0]
+
+    def stores(fn, names):
+        """assignments whose target is a subscript of one of `names`, as source text, in source order"""
+        res = []
+        for st in _walk_stmts(fn.body):
+            if isinstance(st, ast.Assign) and len(st.targets) == 1 and isinstance(st.targets[0], ast.Subscript) and ast.unparse(st.targets[0].value) in names:
+                res.append(ast.unparse(st))
+        return res
+
+    f = method(dt2d, 'DTCWTForward', 'forward')
+    strs('dtcwtfwd_j1_args', [ast.unparse(a) for a in the_call(f, 'FWD_J1.apply').args])
+    strs('dtcwtfwd_j2_args', [ast.unparse(a) for a in the_call(f, 'FWD_J2PLUS.apply').args])
+    lp = the_loop_with(f, 'FWD_J2PLUS.apply')
+    strs('dtcwtfwd_loop', [ast.unparse(lp.target), ast.unparse(lp.iter)])
+    strs('dtcwtfwd_stores', stores(f, ('highs', 'scales')))
+    strs('dtcwtfwd_returns', [ast.unparse(r.value) for r in ast.walk(f) if isinstance(r, ast.Return) and r.value is not None])
+    strs('dtcwtfwd_self_writes', sorted(set(ast.unparse(t) for st in ast.walk(f) if isinstance(st, (ast.Assign, ast.AugAssign))
+                                            for t in (st.targets if isinstance(st, ast.Assign) else [st.target]) if ast.unparse(t).startswith('self.'))))
+    f = method(dt2d, 'DTCWTInverse', 'forward')
+    strs('dtcwtinv_j1_args', [ast.unparse(a) for a in the_call(f, 'INV_J1.apply').args])
+    strs('dtcwtinv_j2_args', [ast.unparse(a) for a in the_call(f, 'INV_J2PLUS.apply').args])
+    lp = the_loop_with(f, 'INV_J2PLUS.apply')
+    strs('dtcwtinv_loop', [ast.unparse(lp.target), ast.unparse(lp.iter)])
+    strs('dtcwtinv_self_writes', sorted(set(ast.unparse(t) for st in ast.walk(f) if isinstance(st, (ast.Assign, ast.AugAssign))
+                                            for t in (st.targets if isinstance(st, ast.Assign) else [st.target]) if ast.unparse(t).startswith('self.'))))
+    for cls, tag in (('DWTForward', 'dwtfwd2'), ('DWTInverse', 'dwtinv2'), ('SWTForward', 'swt')):
+        f = method(t2d, cls, 'forward')
+        strs(tag + '_self_writes', sorted(set(ast.unparse(t) for st in ast.walk(f) if isinstance(st, (ast.Assign, ast.AugAssign))
+                                              for t in (st.targets if isinstance(st, ast.Assign) else [st.target]) if ast.unparse(t).startswith('self.'))))
+    sl = os.path.join(rt.REPO, 'pytorch_wavelets', 'scatternet', 'layers.py')
+    for cls, tag in (('ScatLayer', 'scat1'), ('ScatLayerj2', 'scatj2')):
+        f = method(sl, cls, 'forward')
+        strs(tag + '_self_writes', sorted(set(ast.unparse(t) for st in ast.walk(f) if isinstance(st, (ast.Assign, ast.AugAssign))
+                                              for t in (st.targets if isinstance(st, ast.Assign) else [st.target]) if ast.unparse(t).startswith('self.'))))
+    for cls, tag in (('DWT1DForward', 'dwtfwd1'), ('DWT1DInverse', 'dwtinv1')):
+        f = method(t1d, cls, 'forward')
+        strs(tag + '_self_writes', sorted(set(ast.unparse(t) for st in ast.walk(f) if isinstance(st, (ast.Assign, ast.AugAssign))
+                                              for t in (st.targets if isinstance(st, ast.Assign) else [st.target]) if ast.unparse(t).startswith('self.'))))
     out.append('\nend WV.Gen.Sizes\n')
     return _write(os.path.join(GEN, 'Sizes.lean'), '\n'.join(out))
 
 
-SIZE_PROPS = {'C01', 'C10', 'C08', 'C03', 'C19', 'C13', 'C04', 'C11', 'C14', 'C17', 'C02', 'C07', 'C05'}     # the properties whose theorem lists include the size-arithmetic tie (C01Z)
+SIZE_PROPS = {'C01', 'C10', 'C08', 'C03', 'C19', 'C13', 'C04', 'C11', 'C14', 'C17', 'C02', 'C07', 'C05', 'C12', 'C06', 'C15'}     # the properties whose theorem lists include the size-arithmetic tie (C01Z)
 
 PAD_PROPS = {'C01', 'C03', 'C04', 'C11'}      # the properties whose theorem lists include the padding-helper tie (C03T)
 
